@@ -1309,7 +1309,7 @@ def _parse_textures(header, views, resolver=None):
                 continue
             # get the bytes representing an image
             if "bufferView" in img:
-                blob = views[img["bufferView"]]
+                blob = bytes(views[img["bufferView"]])
             elif "uri" in img:
                 try:
                     # will get bytes from filesystem or base64 URI
@@ -1456,7 +1456,9 @@ def _read_buffers(
             else:
                 start = 0
             end = start + view["byteLength"]
-            views[i] = buffers[view["buffer"]][start:end]
+            # slice a `memoryview` as slicing `bytes` copies the data
+            # which is (views * buffer) bytes for views that overlap
+            views[i] = memoryview(buffers[view["buffer"]])[start:end]
             assert len(views[i]) == view["byteLength"]
         # load data from buffers into numpy arrays
         # using the layout described by accessors
